@@ -19,6 +19,7 @@ import (
 	"strings"
 	"sync"
 	"time"
+	"unicode/utf8"
 
 	"github.com/gorilla/websocket"
 	"github.com/sheerbytes/sheerbytes/internal/app"
@@ -401,6 +402,28 @@ type c16conn struct {
 	creds  *protocol.TurnCredentials
 	close  func()
 	t0, t1 time.Time
+	ws     *wsclient.Conn
+	peer   string
+	mu     sync.Mutex
+	got    []protocol.Envelope // everything received after the connect phase
+	ended  bool                // ReadLoop returned: the server (or the network) closed the socket
+}
+
+func (c *c16conn) seen(pred func(protocol.Envelope) bool) bool {
+	c.mu.Lock()
+	defer c.mu.Unlock()
+	for _, e := range c.got {
+		if pred(e) {
+			return true
+		}
+	}
+	return false
+}
+
+func (c *c16conn) closed() bool {
+	c.mu.Lock()
+	defer c.mu.Unlock()
+	return c.ended
 }
 
 // connect with the REAL client path: wsclient.Dial + ReadLoop until the first
@@ -423,19 +446,18 @@ func c16dialReal(wsURL string) *c16conn {
 	joined := make(chan struct{})
 	var once sync.Once
 	var mu sync.Mutex
-	go conn.ReadLoop(ctx, func(env protocol.Envelope) {
-		switch env.Type {
-		case protocol.TypeTurnCredentials:
-			var tc protocol.TurnCredentials
-			if env.DecodePayload(&tc) == nil {
-				mu.Lock()
-				c.creds = &tc
-				mu.Unlock()
-			}
-		case protocol.TypePeerJoined:
-			once.Do(func() { close(joined) })
-		}
-	})
+	c.ws = conn
+	go func() {
+		conn.ReadLoop(ctx, func(env protocol.Envelope) {
+			c.mu.Lock()
+			c.got = append(c.got, env)
+			c.mu.Unlock()
+			c16onEnv(c, &mu, &once, joined, env)
+		})
+		c.mu.Lock()
+		c.ended = true
+		c.mu.Unlock()
+	}()
 	select {
 	case <-joined:
 	case <-time.After(10 * time.Second):
@@ -446,6 +468,20 @@ func c16dialReal(wsURL string) *c16conn {
 	defer mu.Unlock()
 	c.close = cancel
 	return c
+}
+
+func c16onEnv(c *c16conn, mu *sync.Mutex, once *sync.Once, joined chan struct{}, env protocol.Envelope) {
+	switch env.Type {
+	case protocol.TypeTurnCredentials:
+		var tc protocol.TurnCredentials
+		if env.DecodePayload(&tc) == nil {
+			mu.Lock()
+			c.creds = &tc
+			mu.Unlock()
+		}
+	case protocol.TypePeerJoined:
+		once.Do(func() { close(joined) })
+	}
 }
 
 // connect with a plain gorilla dialer on the same URL string the real client
@@ -1112,6 +1148,7 @@ func c16scenario(rep *hx.Report, add func(string, any), bin string, f c16flags, 
 		} else {
 			c = c16dialPlain(wsURL)
 		}
+		c.peer = peer
 		conns = append(conns, c)
 		// did the request reach the rate limiter?  (mirrors the handler's order of checks)
 		reached := join != "" && si >= 0 && peer != "" && (role == "sender" || role == "receiver")
@@ -1204,6 +1241,54 @@ func c16scenario(rep *hx.Report, add func(string, any), bin string, f c16flags, 
 		rc := doConnect(si, sessions[si].code, nextPeer(), "receiver", 0, canon)
 		if s && rc {
 			rep.Nontrivial("cfg:" + f.summary())
+			// "clients work": connected is not enough - both roles must be able to signal
+			// each other and stay connected while they do (offer / answer go through the
+			// server; a transfer is negotiated over several such messages with pauses)
+			hostC, recvC := conns[len(conns)-2], conns[len(conns)-1]
+			// (only where the configured message limits admit four small messages in a second)
+			// and where both peer ids can be written into a JSON envelope at all: an id that is
+			// not valid UTF-8 connects (the URL carries it percent-encoded) but cannot be named
+			// in the `to` field - the CLI's own ids are hex strings
+			if hostC.ws != nil && recvC.ws != nil && (f.MsgRate == 0 || f.MsgBurst >= 8) && (f.MaxMsg == 0 || f.MaxMsg >= 1024) &&
+				utf8.ValidString(hostC.peer) && utf8.ValidString(recvC.peer) {
+				exchange := func(from, to *c16conn, tag string) bool {
+					id := fmt.Sprintf("work-%s-%d", tag, gi)
+					env := protocol.Envelope{V: 1, Type: "offer", MsgID: id, To: to.peer}
+					if err := from.ws.Send(env); err != nil {
+						return false
+					}
+					dl := time.Now().Add(5 * time.Second)
+					for time.Now().Before(dl) {
+						if to.seen(func(e protocol.Envelope) bool { return e.MsgID == id && e.From == from.peer }) {
+							return true
+						}
+						if to.closed() || from.closed() {
+							return false
+						}
+						time.Sleep(3 * time.Millisecond)
+					}
+					return false
+				}
+				okAll := true
+				var failed string
+				for round := 0; round < 2 && okAll; round++ {
+					if !exchange(hostC, recvC, fmt.Sprintf("h2r%d", round)) {
+						okAll, failed = false, fmt.Sprintf("host -> receiver, round %d", round)
+					} else if !exchange(recvC, hostC, fmt.Sprintf("r2h%d", round)) {
+						okAll, failed = false, fmt.Sprintf("receiver -> host, round %d", round)
+					}
+					time.Sleep(150 * time.Millisecond)
+				}
+				rep.Evaluations++
+				rep.Count("signalling-exchange")
+				if !okAll || hostC.closed() || recvC.closed() {
+					if failed == "" {
+						failed = "a socket was closed by the server after the exchange"
+					}
+					rep.Violate("work:signalling", fmt.Sprintf("host and receiver connected to a server started with %s but cannot keep signalling each other: %s (host socket closed=%v, receiver socket closed=%v)", f.summary(), failed, hostC.closed(), recvC.closed()),
+						map[string]any{"flags": f.summary(), "args": f.args(), "script": append([]string{}, names...)})
+				}
+			}
 		}
 	}
 	// further requests: refusals and limits (correspondence only)
